@@ -421,3 +421,14 @@ for _p, _cls in (("C02", 0x7f), ("C03", 0x02), ("C05", 0x7f), ("C17", 0x7f)):
                                     thorough=["--cfgs", "B1;B1,reuse=1", "--len", "2", "--nested", "1", "--scripted", "0"]))
     PROPS[_p]["rule"] += ("; prepared-state stages: the same enumeration started from (a) a database whose reused MANIFEST is longer than one 32 KiB block and (b) a multi-level layout after a reopen "
                           "(crash points only after the preparation run, whose contents are part of every image's expected state)")
+
+# C12 under concurrency: every explored schedule x ONE injected failure named independently of the schedule
+# (the n-th fsync/write on a MANIFEST / log / table file after the threads start)
+MC_FAULTS = "fsync:MANIFEST,write:MANIFEST,fsync:.log,write:.log,fsync:.ldb,write:.ldb"
+PROPS["C12"]["stages"].append(dict(name="mc-fault", driver="mc", flavour="asan", args=["--prop", "C12", "--faults", MC_FAULTS], weight=0.6,
+                                   quick=["--scenarios", "D14,D1f,D3,D6,D15", "--bound", "1", "--fault-ords", "3"],
+                                   thorough=["--scenarios", "D14,D1f,D3,D6,D15,D4,D9", "--bound", "2", "--fault-ords", "4"]))
+PROPS["C12"]["rule"] += ("; concurrent stage: for every schedule within the deviation bound of scenarios with a writer filling the memtable during a compaction (D14), a flush in flight (D1f), "
+                         "iterators + manual compaction (D3), stalled writers (D6), ldb_compact vs flush (D15): the n-th fsync / write on a MANIFEST, log or table file fails once (EIO); "
+                         "no hang; after the fault has cleared, kill + reopen (at the point where all calls had returned) and close + reopen succeed and contain every batch whose write returned OK")
+PROPS["C12"]["assumptions"] = PROPS["C12"]["assumptions"] + E1_ASSUME[:3]
